@@ -1,5 +1,6 @@
 """C10 - results and gradients keep the operand's floating dtype and exact shape."""
 import numpy as np
+from hypothesis import strategies as st
 
 from .. import gen, nnops, ops
 from ..core import SubCheck, Violation
@@ -27,6 +28,15 @@ def make_check(op):
         rg = case["rg"]
         ctx = f"op={op.name} shapes={shp} args={args} dtype={case['dtype']} g={case['gdtype']} wrap={case['wrap']}"
         ts = ops.leaves(case, rg=rg)
+        mixed = case.get("mixed") and len(ts) > 1
+        if mixed:
+            # "whatever the dtypes of the other operands": operand i takes the other float dtype when mixed[i]
+            flags = [bool(case["mixed"][i % len(case["mixed"])]) for i in range(len(ts))]
+            mixed = len(set(flags)) > 1
+            if mixed:
+                for i, t in enumerate(ts):
+                    if flags[i]:
+                        ts[i] = Tensor(t.data.astype(other), requires_grad=bool(rg[i]))
         try:
             out = op.apply(ts, args)
         except Exception:  # noqa: BLE001
@@ -34,7 +44,7 @@ def make_check(op):
             return
         outs = list(out) if isinstance(out, (tuple, list)) else [out]
         for o in outs:
-            if o.dtype != dt:
+            if not mixed and o.dtype != dt:
                 raise Violation("result_dtype", f"result dtype {o.dtype} for {dt} operands (result shape {o.shape}); {ctx}")
         if op.ref is not None:
             want = op.ref(ops.arrays(case), args)
@@ -44,6 +54,8 @@ def make_check(op):
                     raise Violation("result_shape", f"result shape {o.shape} != reference {np.shape(w)}; {ctx}")
         # float32 vs float64 agreement
         try:
+            if mixed:
+                raise RuntimeError("skip")
             out2 = op.apply(ops.leaves(case, dtype=other), args)
             outs2 = list(out2) if isinstance(out2, (tuple, list)) else [out2]
             for o, o2 in zip(outs, outs2):
@@ -58,7 +70,9 @@ def make_check(op):
             pass
         o = ops.pick(out, case)
         zero_d = o.ndim == 0
-        nt = zero_d or case["gdtype"] == "other" or case["wrap"] or len({tuple(s) for s in shp}) > 1 or op.name == "scalar_arith"
+        if mixed:
+            rec.tag("mixed_operand_dtypes")
+        nt = mixed or zero_d or case["gdtype"] == "other" or case["wrap"] or len({tuple(s) for s in shp}) > 1 or op.name == "scalar_arith"
         rec.nontrivial(nt)
         rec.tag(case["dtype"], "g_" + case["gdtype"], "result_0d" if zero_d else "result_nd", "wrapped" if case["wrap"] else "root")
         if not o.requires_grad:
@@ -69,8 +83,10 @@ def make_check(op):
         if case["wrap"]:
             o.retain_grad()
             root = o * 2.0
-            if root.dtype != dt:
+            if not mixed and root.dtype != dt:
                 raise Violation("result_dtype", f"(result * 2.0) has dtype {root.dtype} for {dt} operands; {ctx}")
+        if mixed:
+            gdt = dt if case["gdtype"] == "same" else other
         g = gen.cyc(case["g"], root.shape, gdt)
         try:
             root.backward(Tensor(g))
@@ -93,13 +109,58 @@ def make_check(op):
     return check
 
 
+@st.composite
+def mixed_case(draw, op):
+    c = draw(ops.full_case(op))
+    if draw(st.integers(0, 2)) == 0:
+        c["mixed"] = [draw(st.booleans()) for _ in range(3)]
+    return c
+
+
+# ---- batch-norm layers over a short train/eval history: buffers and outputs keep the layer dtype ----
+@st.composite
+def bn_hist_cases(draw):
+    C = draw(st.integers(1, 3))
+    rank = draw(st.sampled_from([2, 3, 4]))
+    shp = [draw(st.integers(2, 4)), C] + [draw(st.integers(1, 3)) for _ in range(rank - 2)]
+    return {"shape": shp, "v": draw(gen.distinct(shp)), "dtype": draw(st.sampled_from(["float32", "float64"])),
+            "modes": draw(st.lists(st.booleans(), min_size=1, max_size=5)),
+            "momentum": draw(st.sampled_from([0.1, None, 0.5])), "affine": draw(st.booleans())}
+
+
+def check_bn_hist(c, rec):
+    dt = np.dtype(c["dtype"])
+    x = gen.arr(c["v"], c["shape"], dt)
+    cls = sg.nn.BatchNorm2d if len(c["shape"]) == 4 else sg.nn.BatchNorm1d
+    m = cls(c["shape"][1], momentum=c["momentum"], affine=c["affine"], dtype=dt.type)
+    rec.nontrivial(any(c["modes"]) and not all(c["modes"]))
+    for i, training in enumerate(c["modes"]):
+        m.train() if training else m.eval()
+        t = Tensor(x.copy(), requires_grad=True)
+        out = m(t)
+        hist = f"history(train?)={c['modes'][:i + 1]} shape={c['shape']} dtype={c['dtype']} momentum={c['momentum']}"
+        if out.dtype != dt:
+            raise Violation("result_dtype", f"BatchNorm output dtype {out.dtype} for {dt} input and {dt} layer; {hist}")
+        for name in ("running_mean", "running_var"):
+            b = getattr(m, name)
+            if b.dtype != dt or tuple(b.shape) != (c["shape"][1],):
+                raise Violation("buffer_dtype", f"{name} has dtype {b.dtype} shape {b.shape} in a {dt} layer; {hist}")
+        out.backward(Tensor(np.ones(out.shape, dtype=dt)))
+        if t.grad.dtype != dt or t.grad.shape != t.shape:
+            raise Violation("grad_dtype", f"input grad dtype {t.grad.dtype} shape {t.grad.shape}; {hist}")
+        for p in m.parameters():
+            if p.grad is not None and (p.grad.dtype != p.dtype or p.grad.shape != p.shape):
+                raise Violation("grad_dtype", f"parameter grad dtype {p.grad.dtype} != {p.dtype}; {hist}")
+
+
 def subchecks():
     subs = []
     heavy = {"conv1d", "conv2d", "max_pool2d", "avg_pool2d", "fold", "unfold", "batch_norm"}
     for op in ops.OPS:
-        subs.append(SubCheck("t_" + op.name, make_check(op), (lambda op=op: ops.full_case(op)),
+        subs.append(SubCheck("t_" + op.name, make_check(op), (lambda op=op: mixed_case(op)),
                              quick=250, thorough=3000, shards_quick=1, shards_thorough=2))
     for op in nnops.OPS + [nnops.DROPOUT]:
-        subs.append(SubCheck("nn_" + op.name, make_check(op), (lambda op=op: ops.full_case(op)),
+        subs.append(SubCheck("nn_" + op.name, make_check(op), (lambda op=op: mixed_case(op)),
                              quick=150 if op.name in heavy else 250, thorough=2000, shards_quick=1, shards_thorough=2))
+    subs.append(SubCheck("bn_history", check_bn_hist, bn_hist_cases, quick=300, thorough=3000))
     return subs
